@@ -772,6 +772,12 @@ def every_path_answered(ctx: Ctx, rule: str) -> int:
                  and isinstance(r.value.args[0], ast.Name) and unparse(r.value.func).split(".")[-1] in ("OrderedDict", "dict", "copy", "deepcopy")}
         loops = [x for x in f.own_nodes() if isinstance(x, ast.For)]
         for st in f.own_nodes():
+            # (a list of (path, key) pairs that the returned mapping is built from: `resolved.append((path, key))`)
+            if isinstance(st, ast.Expr) and isinstance(st.value, ast.Call) and isinstance(st.value.func, ast.Attribute) and st.value.func.attr == "append" \
+                    and isinstance(st.value.func.value, ast.Name) and st.value.func.value.id in rets and st.value.args and isinstance(st.value.args[0], ast.Tuple) and st.value.args[0].elts:
+                pair0 = st.value.args[0].elts[0]
+                st = ast.copy_location(ast.Assign(targets=[ast.Subscript(value=st.value.func.value, slice=pair0, ctx=ast.Store())], value=st.value.args[0].elts[-1], type_comment=None), st)
+                st._origin = True  # type: ignore[attr-defined]
             if not (isinstance(st, ast.Assign) and len(st.targets) == 1 and isinstance(st.targets[0], ast.Subscript) and isinstance(st.targets[0].value, ast.Name)
                     and st.targets[0].value.id in rets):
                 continue
@@ -781,6 +787,9 @@ def every_path_answered(ctx: Ctx, rule: str) -> int:
                 continue
             n += 1
             inside = any(any(st is y for b_ in lp.body for y in ast.walk(b_)) for lp in owning)
+            if getattr(st, "_origin", False):
+                inside = any(lp.lineno <= st.lineno <= (lp.end_lineno or lp.lineno) and not any(
+                    o_.lineno <= st.lineno <= (getattr(o_, "end_lineno", None) or o_.lineno) for o_ in lp.orelse) for lp in owning)
             desc = f"{c.name}.fetch_paths files `{unparse(st, 50)}` once per requested path"
             # ... in a mapping that lives across the iterations: it is not created again inside the loop
             renew = [y for lp in owning for b_ in lp.body for y in ast.walk(b_) if isinstance(y, (ast.Assign, ast.AnnAssign)) and any(
